@@ -76,6 +76,10 @@ func anyStringHasMeta(m protoreflect.Message) bool {
 // collections of the property (licences, attribution, file types, purposes, suppliers, originators,
 // external references; map insertion order is irrelevant by construction). The order of a person's
 // contacts is not claimed to be irrelevant and is left alone.
+// the collections the statement calls order-irrelevant (a list attribute added to the schema later may well be ordered)
+var c13SetValued = map[string]bool{"licenses": true, "attribution": true, "file_types": true, "primary_purpose": true, "suppliers": true,
+	"originators": true, "external_references": true}
+
 func permuteMsg(t *rapid.T, m proto.Message) (proto.Message, bool) {
 	c := proto.Clone(m)
 	changed := false
@@ -84,7 +88,7 @@ func permuteMsg(t *rapid.T, m proto.Message) (proto.Message, bool) {
 		m.Range(func(fd protoreflect.FieldDescriptor, v protoreflect.Value) bool {
 			switch {
 			case fd.IsMap():
-			case fd.IsList():
+			case fd.IsList() && c13SetValued[string(fd.Name())]:
 				l := v.List()
 				for i := l.Len() - 1; i > 0; i-- {
 					j := rapid.IntRange(0, i).Draw(t, "perm")
